@@ -453,7 +453,9 @@ def run(ctx):
     quick = ctx.quick
     total = Stats()
     maxlen = 5 if quick else 6
-    units = [(m, s, c, maxlen if (s in ("truthy", "falsy_len") or not quick) else 4, 2 if quick else 3) for m in MODES for s in SHAPES for c in CREATORS]
+    # (thorough: three connections for the two plainest shapes and three creators, two connections for the rest: 327k histories)
+    units = [(m, s, c, maxlen if (s in ("truthy", "falsy_len") or not quick) else 4,
+              3 if (not quick and s in ("truthy", "falsy_len") and c in ("none", "counting", "fails_first")) else 2) for m in MODES for s in SHAPES for c in CREATORS]
     for st in ctx.pmap(run_histories, units):
         total.merge(st)
     for st in ctx.pmap(run_daemons, [(m, c, 4 if quick else 6) for m in MODES for c in ("none", "counting")]):
